@@ -9,12 +9,15 @@ package ice
 // independent implementation of the documented precedence.
 
 import (
+	"context"
 	"errors"
 	"fmt"
 	"math/rand/v2"
 	"net"
 	"strings"
+	"sync"
 	"testing"
+	"time"
 )
 
 var ( //nolint:gochecknoglobals
@@ -354,11 +357,151 @@ func TestVerifC19(t *testing.T) { //nolint:cyclop
 				}
 			}
 		}
+		// end to end: host candidates gathered under a rule list
+		for i := 0; i < e.n(600, 24000); i++ {
+			vfC19Gather(e, r, i)
+		}
 		// legacy NAT1To1IPs construction path
 		if e.shard == 0 {
 			vfC19Legacy(e, r)
 		}
 	})
+}
+
+// vfC19Gather: the rules end to end.  An agent over the fake Net (interfaces eth0/eth1/wlan0 with addresses from the
+// lookup pool) gathers host candidates under a generated, valid rule list; the set of addresses published for each
+// local socket must be what the documented precedence gives for (host, local address, interface): the local address
+// itself when nothing matches or the winner appends, the winner's externals instead in replace mode (none when its
+// list is empty), both in append mode.
+func vfC19Gather(e *vfEnv, r *vfResult, idx int) { //nolint:cyclop
+	rng := e.rng(idx, "rules-gather")
+	var rules []AddressRewriteRule
+	for k := rng.IntN(5); k > 0; k-- {
+		gr := vfC19GenRule(rng, false)
+		if gr.Invalid != "" {
+			continue
+		}
+		if vfC19EffType(gr.R.AsCandidateType) != CandidateTypeHost && rng.IntN(2) == 0 {
+			gr.R.AsCandidateType = CandidateTypeHost
+		}
+		rules = append(rules, gr.R)
+	}
+	hasHostRule := false
+	for _, x := range rules {
+		if vfC19EffType(x.AsCandidateType) == CandidateTypeHost {
+			hasHostRule = true
+		}
+	}
+	if !hasHostRule {
+		return
+	}
+	// interface table
+	var ifs []vfIface
+	where := map[string]string{} // local ip -> interface
+	pool := append([]string{}, vfC19LookupIP...)
+	rng.Shuffle(len(pool), func(i, j int) { pool[i], pool[j] = pool[j], pool[i] })
+	for _, name := range vfC19Ifaces[:1+rng.IntN(3)] {
+		ifc := vfIface{Name: name}
+		for k := 1 + rng.IntN(2); k > 0 && len(pool) > 0; k-- {
+			ifc.IPs = append(ifc.IPs, pool[0])
+			where[pool[0]] = name
+			pool = pool[1:]
+		}
+		ifs = append(ifs, ifc)
+	}
+	sw := newVfSwitch()
+	a, err := NewAgentWithOptions(WithNet(newVfNet(sw, "G", ifs...)), WithAddressRewriteRules(rules...), WithMulticastDNSMode(MulticastDNSModeDisabled),
+		WithLoggerFactory(vfQuietLogger()), WithCandidateTypes([]CandidateType{CandidateTypeHost}), WithNetworkTypes([]NetworkType{NetworkTypeUDP4, NetworkTypeUDP6}))
+	if err != nil {
+		return // ineffective / rejected rule sets are the constructor part's business
+	}
+	defer a.Close() //nolint:errcheck
+	var mu sync.Mutex
+	done := false
+	_ = a.OnCandidate(func(c Candidate) {
+		if c == nil {
+			mu.Lock()
+			done = true
+			mu.Unlock()
+		}
+	})
+	if err := a.GatherCandidates(); err != nil {
+		r.inconclusive(1)
+
+		return
+	}
+	for dl := time.Now().Add(10 * time.Second); time.Now().Before(dl); time.Sleep(50 * time.Microsecond) {
+		mu.Lock()
+		d := done
+		mu.Unlock()
+		if d {
+			break
+		}
+	}
+	cands, err := a.GetLocalCandidates()
+	if err != nil {
+		r.inconclusive(1)
+
+		return
+	}
+	// published addresses per local socket
+	got := map[string]map[string]bool{}
+	_ = a.loop.Run(a.loop, func(context.Context) {
+		for _, set := range a.localCandidates {
+			for _, c := range set {
+				hc, ok := c.(*CandidateHost)
+				if !ok || hc.conn == nil {
+					continue
+				}
+				ua, ok := hc.conn.LocalAddr().(*net.UDPAddr)
+				if !ok {
+					continue
+				}
+				base := ua.IP.String()
+				if got[base] == nil {
+					got[base] = map[string]bool{}
+				}
+				got[base][net.ParseIP(c.Address()).String()] = true
+			}
+		}
+	})
+	_ = cands
+	for loc, iface := range where {
+		r.eval(1)
+		expect := func(w vfC19Out) []string {
+			set := map[string]bool{}
+			switch {
+			case !w.matched:
+				set[loc] = true
+			case w.mode == AddressRewriteReplace:
+				for _, x := range w.ips {
+					set[x] = true
+				}
+			default:
+				set[loc] = true
+				for _, x := range w.ips {
+					set[x] = true
+				}
+			}
+
+			return vfSortedKeys(set)
+		}
+		want := vfC19Ref(rules, CandidateTypeHost, loc, iface, false)
+		have := vfSortedKeys(got[net.ParseIP(loc).String()])
+		w := expect(want)
+		r.set("c19_gather_outcomes", fmt.Sprintf("matched=%v/mode=%d/n=%d", want.matched, want.mode, len(want.ips)))
+		if strings.Join(have, ",") == strings.Join(w, ",") {
+			continue
+		}
+		sig := "gather-mismatch"
+		if alt := vfC19Ref(rules, CandidateTypeHost, loc, iface, true); strings.Join(expect(alt), ",") == strings.Join(have, ",") && alt.idx >= 0 && alt.idx < want.idx && want.spec == 1 {
+			sig = "lookup-mismatch:cidr-only-catchall-loses-to-earlier-global-when-lookup-has-iface:gather"
+		}
+		r.violation(sig, fmt.Sprintf("host candidates published for local %s on %s: %v; the documented precedence (rule #%d, matched=%v, mode=%d, externals %v) gives %v", loc, iface, have, want.idx, want.matched, want.mode, want.ips, w),
+			map[string]any{"idx": idx, "rules": vfC19RuleJSON(rules), "local": loc, "iface": iface, "published": have, "expected": w})
+	}
+	r.count("c19_gather_runs", 1)
+	r.distinct(fmt.Sprintf("gather/rules=%d/ifaces=%d/addrs=%d", len(rules), len(ifs), len(where)))
 }
 
 func vfC19ViaAgent(r *vfResult, rules []AddressRewriteRule) {
